@@ -182,7 +182,7 @@ func init() {
 
 	registerProp(&propDef{ID: "C19", Rules: func(c *Ctx) {
 		c.ruleExcerpt()
-	}, Explanation: "Window: an excerpt line is lines[i] of the diagnostic's file stored with the number i+1; filled by a +1 counting loop left only at its head (also over a sub-slice); contains the reported line whenever the file has it; empty only for an unreadable file or a missing line. Formatter: prints each line with its own number, shows truncateString(line, limit, column), writes the caret line exactly under the line numbered like the diagnostic. Truncation: every result is at most limit + 6 bytes long and keeps the reported character (VISIBLE: lo <= column-1 < hi). Caret: for every jointly satisfiable pair of returns of calculateDisplayColumn and truncateString the display column is len(markers before) + column - lo (CARET-COLUMN); the caret line has the margin of the text line (MARGIN, WIDEST), displayColumn-1 single-byte paddings repeating the tabs of the shown text (COUNT, ONE-PER-STEP, TAB), then the caret, on the same builder (SINK, CARET). All arithmetic: Fourier-Motzkin over the conditions dominating each return, joins and classification helpers as case splits. Not decided: multi-byte characters (columns are bytes); failure-freedom is C10's."})
+	}, Explanation: "Window: an excerpt line is lines[i] of the diagnostic's file stored with the number i+1; filled by a +1 counting loop left only at its head (also over a sub-slice); contains the reported line whenever the file has it; empty only for an unreadable file or a missing line. Formatter: prints each line with its own number, shows truncateString(line, limit, column), writes the caret line exactly under the line numbered like the diagnostic. Truncation: every result is at most limit + 6 bytes long and keeps the reported character (VISIBLE: lo <= column-1 < hi). Caret: for every jointly satisfiable pair of returns of calculateDisplayColumn and truncateString the display column is len(markers before) + column - lo (CARET-COLUMN); the caret line has the margin of the text line (MARGIN, WIDEST), displayColumn-1 single-byte paddings repeating the tabs of the shown text (COUNT, ONE-PER-STEP, TAB), then the caret, on the same builder (SINK, CARET). All arithmetic: Fourier-Motzkin over the conditions dominating each return, joins and classification helpers as case splits. Known finding KF-C19-1 (CELLS): one padding per byte before the column, while a terminal shows one cell per character - multi-byte characters before the column displace the caret. Failure-freedom is C10's."})
 	registerProp(&propDef{ID: "C18", Rules: func(c *Ctx) {
 		c.ruleFlagTable()
 		c.ruleParseHelpers()
